@@ -45,8 +45,8 @@ def extract(run):
 def make_election(seed):
     rng = random.Random(seed)
     # three states: the bootstrap estimator then has several contests with a contest effect (their draws are sampled jointly)
-    return E.gen_election(rng, size="small", roles=["reporting"] * 6 + ["partial"] * 3 + ["zero-percent", "blocklisted"], min_reporting=14,
-                          n_states=3)
+    return E.gen_election(rng, size="small", roles=["reporting"] * 6 + ["partial"] * 3 + ["zero-percent", "blocklisted", "third-party-heavy", "third-party-heavy"],
+                          min_reporting=14, n_states=3)
 
 
 def make_big_election(seed):
@@ -73,6 +73,9 @@ def argsets(seed):
         "bo2": dict(pi_method="bootstrap", estimands=["margin"], alphas=[0.75], features=["baseline_normalized_margin"],
                     aggregates=["county_fips", "postal_code"], params={"B": 5, "lambda_": 2.0}),
     }
+
+
+ALPHA_SETS = [[0.9, 0.99], [0.9], [0.7, 0.99], [0.5]]
 
 
 def run_history(history, seed):
@@ -145,20 +148,34 @@ def run_history(history, seed):
             out.append("cached:" + d1 + "|" + d2)
         else:
             d = None if h[1] == "none" else {s: 3 + i for i, s in enumerate(sorted(set(e.states) | set(e.cur["postal_code"])))}
+            alphas = ALPHA_SETS[h[3]] if len(h) > 3 else [0.9, 0.99]
             res = []
-            for _ in range(h[2]):
+
+            def ask(client):
                 try:
                     with np.errstate(all="ignore"):
-                        df = cl.get_national_summary_votes_estimates(d, 10, [0.9, 0.99])
-                    res.append(P.digest({"nat": df}))
+                        df = client.get_national_summary_votes_estimates(d, 10, alphas)
+                    return P.digest({"nat": df})
                 except Exception as ex:
-                    res.append("raises:" + type(ex).__name__)
+                    return "raises:" + type(ex).__name__
+
+            for _ in range(h[2]):
+                res.append(ask(cl))
+            if len(h) > 3 and last is not None:
+                # reference: a client that did nothing but the last estimate run and this one question
+                el, a = el_args(last)
+                r = E.run_client(el, keep_client=True, **a)
+                res.append(ask(r["client"]) if "client" in r and "tables" in r else res[0])
             out.append("|".join(res))
     return out
 
 
 def gen_history(rng, other=None, big=False):
     keys = rng.sample(["np", "ga", "bo", "bo2"], rng.choice([2, 3]))
+    if not any(k in keys for k in ("bo", "bo2")):
+        keys[0] = rng.choice(["bo", "bo2"])       # a margin run and a vote-count run in every history: they derive different columns
+    if not any(k in keys for k in ("np", "ga")):
+        keys[-1] = rng.choice(["np", "ga"])
     if big:
         keys = ["boD", "gaB"]
     h = []
@@ -166,14 +183,18 @@ def gen_history(rng, other=None, big=False):
         k = rng.choice(keys)
         h.append(["est", k])
         if k in ("bo", "bo2", "boD") and rng.random() < 0.7:
-            h.append(["nat", rng.choice(["none", "dict"]), rng.choice([1, 2, 3])])
+            h.append(["nat", rng.choice(["none", "dict"]), rng.choice([1, 2, 3]), 0])
+            if rng.random() < 0.6:
+                # asked again for other interval levels (compared with a client that was asked only that)
+                h.append(["nat", h[-1][1], 1, rng.choice([1, 2, 3])])
     # another election on the same client in between (half of the histories)
     if (rng.random() < 0.5) if other is None else other:
         h.insert(rng.randint(0, max(0, len(h) - 1)), ["other"])
     # make sure something repeats, and add fresh-client references
     h.append(["est", keys[0]])
     if keys[0] in ("bo", "bo2", "boD"):
-        h.append(["nat", "none", 2])
+        h.append(["nat", "none", 2, 0])
+        h.append(["nat", "none", 1, 1])
     for k in keys:
         h.append(["fresh", k])
     if not big:
@@ -181,6 +202,10 @@ def gen_history(rng, other=None, big=False):
         for k in keys:
             h.insert(rng.randint(1, len(h)), ["shared", k])
         h.append(["shared", keys[-1]])
+        # ... and in both orders: what a margin run leaves in the shared frames must not reach a count run, and vice versa
+        mk = next(k for k in keys if k in ("bo", "bo2"))
+        ck = next(k for k in keys if k in ("np", "ga"))
+        h += [["shared", mk], ["shared", ck], ["shared", mk]]
         a, b = rng.sample(keys, 2)
         h.append(["cached", a, b])
         h.append(["cached", b, b])
@@ -222,10 +247,11 @@ def check_history(run, case, history, digests, where):
         else:
             parts = d.split("|")
             if len(set(parts)) != 1:
-                run.violation("the national summary changes when it is asked again (" + where + ")", input=case,
+                run.violation("the national summary changes when it is asked again, or differs from what a client that was asked only this "
+                              "returns (" + where + ")", input=case,
                               impl=[p[:12] for p in parts], predicate="natsum_idempotent", signature="C12:natsum-repeat")
                 return False
-            key = (last_est, h[1])
+            key = (last_est, h[1], h[3] if len(h) > 3 else 0)
             if key in nat_seen and nat_seen[key] != parts[0]:
                 run.violation("the national summary after equal estimate runs differs (" + where + ")", input=case,
                               impl=[nat_seen[key][:12], parts[0][:12]], predicate="natsum_depends_on_last_estimate_only",
